@@ -3,10 +3,14 @@
 // Contracts for the deductive verification in /verif (comment-only file: with
 // the "verif" build tag off it does not exist for the compiler, with it on it
 // compiles to nothing). The //@ blocks are read by /verif/bin/vc.
+//
+// old(e) evaluates the heap reads of e in the pre-state (variables keep their
+// value); "oldlet" binds variables in the pre-state, "let" in the post-state.
 
 package serf
 
 //@ import "github.com/hashicorp/memberlist"
+//@ import "time"
 
 //@ pure func maxU64() uint64 { return 18446744073709551615 }
 
@@ -41,35 +45,49 @@ package serf
 //@   assert("ordered", "C19", b > a)
 //@ }
 
-// ---------------------------------------------------------------- membership state (C02 C03 C04 C15)
+// ---------------------------------------------------------------- membership state (C02 C03 C04 C15 C16)
+
+//@ pure func hasMember(s *Serf, k string) bool { _, ok := s.members[k]; return ok }
+//@ pure func hasIntent(s *Serf, k string) bool { _, ok := s.recentIntents[k]; return ok }
 
 //@ pure func wfMembers(s *Serf) bool {
 //@   return s != nil && s.members != nil && s.recentIntents != nil && s.config != nil &&
 //@     forall(func(k string) bool { m, ok := s.members[k]; return ok ==> m != nil && allocated(m) && m.Name == k })
 //@ }
 
+// every member other than `name`: same presence, same object, same status and status time
+//@ pure func othersUntouched(s *Serf, name string) bool {
+//@   return forall(func(k string) bool { return k != name ==> hasMember(s, k) == old(hasMember(s, k)) &&
+//@       (hasMember(s, k) ==> s.members[k] == old(s.members[k]) && s.members[k].Status == old(s.members[k].Status) &&
+//@        s.members[k].statusLTime == old(s.members[k].statusLTime)) })
+//@ }
+// a member's recorded status time only grows (C02)
+//@ pure func ltimeMonotone(s *Serf) bool {
+//@   return forall(func(k string) bool { return hasMember(s, k) && old(hasMember(s, k)) && s.members[k] == old(s.members[k]) ==>
+//@       s.members[k].statusLTime >= old(s.members[k].statusLTime) })
+//@ }
+
 //@ func (s *Serf) handleNodeJoinIntent(joinMsg *messageJoin) (rebroadcast bool)
 //@   requires wf: wfMembers(s) && joinMsg != nil
+//@   oldlet m0, known0 := s.members[joinMsg.Node]
+//@   oldlet it0, buffered0 := s.recentIntents[joinMsg.Node]
+//@   oldlet st0 := m0.Status
+//@   oldlet lt0 := m0.statusLTime
 //@   let m, known := s.members[joinMsg.Node]
 //@   let it, buffered := s.recentIntents[joinMsg.Node]
 //@   ensures wf [C15]: wfMembers(s)
-//@   ensures stale_ignored [C02,C04]: old(known) && joinMsg.LTime <= old(m.statusLTime) ==>
-//@       !rebroadcast && m.Status == old(m.Status) && m.statusLTime == old(m.statusLTime)
-//@   ensures newer_a [C02,C04]: old(known) && joinMsg.LTime > old(m.statusLTime) ==> rebroadcast
-//@   ensures newer_b [C02,C04]: old(known) && joinMsg.LTime > old(m.statusLTime) ==> m.statusLTime == joinMsg.LTime
-//@   ensures newer_c [C02,C04]: old(known) && joinMsg.LTime > old(m.statusLTime) ==> m.Status == ite(old(m.Status) == StatusLeaving, StatusAlive, old(m.Status))
-//@   ensures newer_d [C02,C04]: old(known) && joinMsg.LTime > old(m.statusLTime) && old(m.Status) == StatusLeaving ==> m.Status == StatusAlive
-//@   ensures newer_e [C02,C04]: old(known) && joinMsg.LTime > old(m.statusLTime) && old(m.Status) != StatusLeaving ==> m.Status == old(m.Status)
-//@   ensures unknown_buffered [C02,C04]: !old(known) ==>
-//@       rebroadcast == (!old(buffered) || joinMsg.LTime > old(it.LTime)) &&
+//@   ensures stale_ignored [C02,C04]: known0 && joinMsg.LTime <= lt0 ==>
+//@       !rebroadcast && known && m == m0 && m.Status == st0 && m.statusLTime == lt0
+//@   ensures newer_rebroadcast [C02,C04]: known0 && joinMsg.LTime > lt0 ==> rebroadcast
+//@   ensures newer_time [C02,C04]: known0 && joinMsg.LTime > lt0 ==> known && m == m0 && m.statusLTime == joinMsg.LTime
+//@   ensures newer_status [C02,C04]: known0 && joinMsg.LTime > lt0 ==> m.Status == ite(st0 == StatusLeaving, StatusAlive, st0)
+//@   ensures unknown_buffered [C02,C04]: !known0 ==> !known &&
+//@       rebroadcast == (!buffered0 || joinMsg.LTime > it0.LTime) &&
 //@       (rebroadcast ==> buffered && it.LTime == joinMsg.LTime && it.Type == messageJoinType) &&
-//@       (!rebroadcast ==> buffered && it == old(it))
-//@   ensures others_unchanged [C02,C15]: forall(func(k string) bool { o, ok := s.members[k]
-//@       return ok && k != joinMsg.Node ==> o.Status == old(o.Status) && o.statusLTime == old(o.statusLTime) })
-//@   ensures members_same [C02,C15]: forall(func(k string) bool { o, ok := s.members[k]; oo, ook := old(s.members)[k]
-//@       return ok == old(ook) && (ok ==> o == old(oo)) })
-//@   ensures ltime_monotone [C02]: forall(func(k string) bool { o, ok := s.members[k]
-//@       return ok ==> o.statusLTime >= old(o.statusLTime) })
+//@       (!rebroadcast ==> buffered && it == it0)
+//@   ensures others_unchanged [C02,C15]: othersUntouched(s, joinMsg.Node)
+//@   ensures members_same [C02,C15]: forall(func(k string) bool { return hasMember(s, k) == old(hasMember(s, k)) && s.members[k] == old(s.members[k]) })
+//@   ensures ltime_monotone [C02]: ltimeMonotone(s)
 //@ end
 
 // ---------------------------------------------------------------- failed / left lists (C15)
@@ -88,10 +106,13 @@ package serf
 //@   ensures wf [C15]: wfList(ret)
 //@   ensures in_place [C15]: sameArray(ret, lst) && len(ret) <= len(lst)
 //@   ensures frame [C15]: elemsUnchangedExcept(lst)
+//@   # ret holds exactly the old elements whose name is not `name`
 //@   ensures removed [C15]: forall(func(m *memberState) bool {
 //@       return inList(ret, m) == (old(inList(lst, m)) && m.Name != name) })
+//@   ensures removed_a [C15]: forall(func(j int) bool { r := ret[j]; return 0 <= j && j < len(ret) ==> old(inList(lst, r)) && r.Name != name })
+//@   ensures removed_b [C15]: forall(func(i int) bool { return 0 <= i && i < len(lst) && old(lst[i]).Name != name ==> inList(ret, old(lst[i])) })
 //@   ensures len_exact [C15]: len(ret) == len(lst) - ite(exists(func(i int) bool {
-//@       return 0 <= i && i < len(lst) && old(lst[i].Name) == name }), 1, 0)
+//@       return 0 <= i && i < len(lst) && old(lst[i]).Name == name }), 1, 0)
 //@   loop 1 vars rangeindex int
 //@   loop 1 invariant scanned: -1 <= rangeindex && rangeindex < len(lst) &&
 //@       forall(func(j int) bool { return 0 <= j && j <= rangeindex ==> lst[j].Name != name })
@@ -99,41 +120,44 @@ package serf
 
 // wfSerf: the membership bookkeeping invariant (C15). The failed (left) list
 // holds exactly the members whose status is failed (left), without duplicates.
-//@ pure func listMatches(s *Serf, l []*memberState, st MemberStatus) bool {
-//@   return wfList(l) &&
-//@     forall(func(i int) bool { return 0 <= i && i < len(l) ==> s.members[l[i].Name] == l[i] && l[i].Status == st }) &&
-//@     forall(func(k string) bool { m, ok := s.members[k]; return ok && m.Status == st ==> inList(l, m) })
-//@ }
-//@ pure func wfSerf(s *Serf) bool {
-//@   return wfMembers(s) && listMatches(s, s.failedMembers, StatusFailed) && listMatches(s, s.leftMembers, StatusLeft) &&
-//@     disjoint(s.failedMembers, s.leftMembers)
-//@ }
-
-// reapEventSent: exactly one EventMemberReap for m was appended to the event channel.
-//@ pure func lastEventIs(s *Serf, n int, ty EventType, name string) bool {
-//@   e, ok := sentAt(s.config.EventCh, n).(MemberEvent)
-//@   return ok && e.Type == ty && len(e.Members) == 1 && e.Members[0].Name == name
-//@ }
-
-//@ func (s *Serf) eraseNode(m *memberState)
-//@   requires wf: wfMembers(s) && m != nil
-//@   let _, present := s.members[m.Name]
-//@   ensures erased [C15]: !present
-//@   ensures others_kept [C15]: forall(func(k string) bool { o, ok := s.members[k]; oo, ook := old(s.members)[k]
-//@       return k != m.Name ==> ok == old(ook) && (ok ==> o == old(oo)) })
-//@   ensures wf [C15]: wfMembers(s)
-//@   ensures one_reap_event [C15,C16]: s.config.EventCh != nil ==>
-//@       sentN(s.config.EventCh) == old(sentN(s.config.EventCh))+1 && lastEventIs(s, old(sentN(s.config.EventCh)), EventMemberReap, m.Name)
-//@   ensures no_other_events [C15,C16]: forall(func(ch chan<- Event) bool { return ch != s.config.EventCh || ch == nil ==> sentN(ch) == old(sentN(ch)) })
-//@   ensures earlier_events_kept [C16]: forall2(func(ch chan<- Event, i int) bool { return 0 <= i && i < old(sentN(ch)) ==> sentAt(ch, i) == old(sentAt(ch, i)) }) &&
-//@       allocatedElemsKept([]Member(nil))
-//@ end
-
-// the conjuncts of wfSerf, proved one by one (smaller queries)
 //@ pure func listA(s *Serf, l []*memberState, st MemberStatus) bool {
 //@   return forall(func(i int) bool { return 0 <= i && i < len(l) ==> s.members[l[i].Name] == l[i] && l[i].Status == st }) }
 //@ pure func listB(s *Serf, l []*memberState, st MemberStatus) bool {
 //@   return forall(func(k string) bool { m, ok := s.members[k]; return ok && m.Status == st ==> inList(l, m) }) }
+//@ pure func wfSerf(s *Serf) bool {
+//@   return wfMembers(s) &&
+//@     wfList(s.failedMembers) && listA(s, s.failedMembers, StatusFailed) && listB(s, s.failedMembers, StatusFailed) &&
+//@     wfList(s.leftMembers) && listA(s, s.leftMembers, StatusLeft) && listB(s, s.leftMembers, StatusLeft) &&
+//@     disjoint(s.failedMembers, s.leftMembers)
+//@ }
+
+// the n-th event sent to the application is a member event of kind ty about a member called name
+//@ pure func lastEventIs(s *Serf, n int, ty EventType, name string) bool {
+//@   e, ok := sentAt(s.config.EventCh, n).(MemberEvent)
+//@   return ok && e.Type == ty && len(e.Members) == 1 && e.Members[0].Name == name
+//@ }
+// ... and carries the member's status as it is now
+//@ pure func memberEventIs(s *Serf, n int, ty EventType, m *memberState) bool {
+//@   e, ok := sentAt(s.config.EventCh, n).(MemberEvent)
+//@   return ok && e.Type == ty && len(e.Members) == 1 && e.Members[0].Name == m.Name && e.Members[0].Status == m.Status
+//@ }
+// events already sent are never rewritten
+//@ pure func earlierEventsKept() bool {
+//@   return forall2(func(ch chan<- Event, i int) bool { return 0 <= i && i < old(sentN(ch)) ==> sentAt(ch, i) == old(sentAt(ch, i)) }) &&
+//@     allocatedElemsKept([]Member(nil))
+//@ }
+
+//@ func (s *Serf) eraseNode(m *memberState)
+//@   requires wf: wfMembers(s) && m != nil
+//@   ensures erased [C15]: !hasMember(s, m.Name)
+//@   ensures others_kept [C15]: forall(func(k string) bool {
+//@       return k != m.Name ==> hasMember(s, k) == old(hasMember(s, k)) && s.members[k] == old(s.members[k]) })
+//@   ensures wf [C15]: wfMembers(s)
+//@   ensures one_reap_event [C15,C16]: s.config.EventCh != nil ==>
+//@       sentN(s.config.EventCh) == old(sentN(s.config.EventCh))+1 && lastEventIs(s, old(sentN(s.config.EventCh)), EventMemberReap, m.Name)
+//@   ensures no_other_events [C15,C16]: forall(func(ch chan<- Event) bool { return ch != s.config.EventCh || ch == nil ==> sentN(ch) == old(sentN(ch)) })
+//@   ensures earlier_events_kept [C16]: earlierEventsKept()
+//@ end
 
 //@ func (s *Serf) handlePrune(member *memberState)
 //@   requires wf_members: wfMembers(s) && member != nil && s.members[member.Name] == member
@@ -145,10 +169,9 @@ package serf
 //@   requires wf_left_b: listB(s, s.leftMembers, StatusLeft)
 //@   requires wf_disjoint: disjoint(s.failedMembers, s.leftMembers)
 //@   requires status: member.Status == StatusLeaving || member.Status == StatusLeft
-//@   let _, present := s.members[member.Name]
-//@   ensures erased [C15]: !present
-//@   ensures others_kept [C15]: forall(func(k string) bool { o, ok := s.members[k]; oo, ook := old(s.members)[k]
-//@       return k != member.Name ==> ok == old(ook) && (ok ==> o == old(oo)) })
+//@   ensures erased [C15]: !hasMember(s, member.Name)
+//@   ensures others_kept [C15]: forall(func(k string) bool {
+//@       return k != member.Name ==> hasMember(s, k) == old(hasMember(s, k)) && s.members[k] == old(s.members[k]) })
 //@   ensures wf_members [C15]: wfMembers(s)
 //@   ensures wf_failed_list [C15]: wfList(s.failedMembers)
 //@   ensures wf_failed_a [C15]: listA(s, s.failedMembers, StatusFailed)
@@ -161,56 +184,54 @@ package serf
 //@       sameArray(s.leftMembers, old(s.leftMembers))
 //@   ensures one_reap_event [C15,C16]: s.config.EventCh != nil ==>
 //@       sentN(s.config.EventCh) == old(sentN(s.config.EventCh))+1 && lastEventIs(s, old(sentN(s.config.EventCh)), EventMemberReap, member.Name)
-//@   ensures earlier_events_kept [C16]: forall2(func(ch chan<- Event, i int) bool { return 0 <= i && i < old(sentN(ch)) ==> sentAt(ch, i) == old(sentAt(ch, i)) }) &&
-//@       allocatedElemsKept([]Member(nil))
+//@   ensures earlier_events_kept [C16]: earlierEventsKept()
 //@ end
-
-//@ pure func sameMemberState(s *Serf, k string) bool { return true }
 
 //@ func (s *Serf) handleNodeLeaveIntent(leaveMsg *messageLeave) (rebroadcast bool)
 //@   requires wf: wfSerf(s) && leaveMsg != nil
+//@   oldlet m0, known0 := s.members[leaveMsg.Node]
+//@   oldlet it0, buffered0 := s.recentIntents[leaveMsg.Node]
+//@   oldlet st0 := m0.Status
+//@   oldlet lt0 := m0.statusLTime
+//@   oldlet self := leaveMsg.Node == s.config.NodeName && s.state == SerfAlive
+//@   oldlet evN := sentN(s.config.EventCh)
+//@   oldlet spN := spawnN()
 //@   let m, known := s.members[leaveMsg.Node]
 //@   let it, buffered := s.recentIntents[leaveMsg.Node]
-//@   let newer := leaveMsg.LTime > old(m.statusLTime)
-//@   let self := leaveMsg.Node == s.config.NodeName && old(s.state) == SerfAlive
-//@   let om := old(m)
-//@   let ost := old(m.Status)
-//@   let evN := old(sentN(s.config.EventCh))
+//@   let newer := leaveMsg.LTime > lt0
 //@   # ---- C02 / C04: an intent that is not newer never changes anything and is not re-broadcast
-//@   ensures stale_ignored [C02,C04]: old(known) && !newer ==>
-//@       !rebroadcast && known && m == om && m.Status == ost && m.statusLTime == old(m.statusLTime)
+//@   ensures stale_ignored [C02,C04]: known0 && !newer ==>
+//@       !rebroadcast && known && m == m0 && m.Status == st0 && m.statusLTime == lt0
 //@   # ---- C03: a running member refutes newer claims about itself and stays alive
-//@   ensures self_refutes [C03]: old(known) && newer && self ==>
-//@       !rebroadcast && known && m == om && m.Status == ost && m.statusLTime == old(m.statusLTime) &&
-//@       spawnN() == old(spawnN())+1 && spawnIs(old(spawnN()), "Serf.broadcastJoin") &&
-//@       (uint64(leaveMsg.LTime) != maxU64() ==> spawnArg(old(spawnN())) > uint64(leaveMsg.LTime))
-//@   ensures self_stays_alive [C03]: old(known) && self && ost == StatusAlive ==> known && m == om && m.Status == StatusAlive
-//@   ensures no_spurious_refute [C03]: !(old(known) && newer && self) ==> spawnN() == old(spawnN())
+//@   ensures self_refutes [C03]: known0 && newer && self ==>
+//@       !rebroadcast && known && m == m0 && m.Status == st0 && m.statusLTime == lt0 &&
+//@       spawnN() == spN+1 && spawnIs(spN, "Serf.broadcastJoin") &&
+//@       (uint64(leaveMsg.LTime) != maxU64() ==> spawnArg(spN) > uint64(leaveMsg.LTime))
+//@   ensures self_stays_alive [C03]: known0 && self && st0 == StatusAlive ==> known && m == m0 && m.Status == StatusAlive
+//@   ensures no_spurious_refute [C03]: !(known0 && newer && self) ==> spawnN() == spN
 //@   # ---- C02: transition table for a newer leave intent about somebody else (or about us once leaving)
-//@   ensures newer_alive [C02]: old(known) && newer && !self && ost == StatusAlive ==> rebroadcast &&
-//@       (!leaveMsg.Prune ==> known && m == om && m.Status == StatusLeaving && m.statusLTime == leaveMsg.LTime) && (leaveMsg.Prune ==> !known)
-//@   ensures newer_failed [C02,C15]: old(known) && newer && !self && ost == StatusFailed ==> rebroadcast &&
-//@       (!leaveMsg.Prune ==> known && m == om && m.Status == StatusLeft && m.statusLTime == leaveMsg.LTime) && (leaveMsg.Prune ==> !known)
+//@   ensures newer_alive [C02]: known0 && newer && !self && st0 == StatusAlive ==> rebroadcast &&
+//@       (!leaveMsg.Prune ==> known && m == m0 && m.Status == StatusLeaving && m.statusLTime == leaveMsg.LTime) && (leaveMsg.Prune ==> !known)
+//@   ensures newer_failed [C02,C15]: known0 && newer && !self && st0 == StatusFailed ==> rebroadcast &&
+//@       (!leaveMsg.Prune ==> known && m == m0 && m.Status == StatusLeft && m.statusLTime == leaveMsg.LTime) && (leaveMsg.Prune ==> !known)
 //@   let ev, evok := sentAt(s.config.EventCh, evN).(MemberEvent)
-//@   ensures newer_failed_event_n [C15,C16]: old(known) && newer && !self && ost == StatusFailed && s.config.EventCh != nil ==>
+//@   ensures newer_failed_event_n [C15,C16]: known0 && newer && !self && st0 == StatusFailed && s.config.EventCh != nil ==>
 //@       sentN(s.config.EventCh) >= evN+1
-//@   ensures newer_failed_event_ty [C15,C16]: old(known) && newer && !self && ost == StatusFailed && s.config.EventCh != nil ==>
+//@   ensures newer_failed_event_ty [C15,C16]: known0 && newer && !self && st0 == StatusFailed && s.config.EventCh != nil ==>
 //@       evok && ev.Type == EventMemberLeave && len(ev.Members) == 1
-//@   ensures newer_failed_event_who [C15,C16]: old(known) && newer && !self && ost == StatusFailed && s.config.EventCh != nil ==>
+//@   ensures newer_failed_event_who [C15,C16]: known0 && newer && !self && st0 == StatusFailed && s.config.EventCh != nil ==>
 //@       ev.Members[0].Name == leaveMsg.Node
-//@   ensures newer_leaving_left [C02]: old(known) && newer && !self && (ost == StatusLeaving || ost == StatusLeft) ==> rebroadcast &&
-//@       (!leaveMsg.Prune ==> known && m == om && m.Status == ost && m.statusLTime == leaveMsg.LTime) && (leaveMsg.Prune ==> !known)
-//@   ensures newer_none [C02]: old(known) && newer && !self && ost == StatusNone ==> !rebroadcast && known && m == om && m.Status == ost
+//@   ensures newer_leaving_left [C02]: known0 && newer && !self && (st0 == StatusLeaving || st0 == StatusLeft) ==> rebroadcast &&
+//@       (!leaveMsg.Prune ==> known && m == m0 && m.Status == st0 && m.statusLTime == leaveMsg.LTime) && (leaveMsg.Prune ==> !known)
+//@   ensures newer_none [C02]: known0 && newer && !self && st0 == StatusNone ==> !rebroadcast && known && m == m0 && m.Status == st0
 //@   # ---- unknown member: the intent is buffered iff newer than the buffered one (C02, C04)
-//@   ensures unknown_buffered [C02,C04]: !old(known) ==> !known &&
-//@       rebroadcast == (!old(buffered) || leaveMsg.LTime > old(it.LTime)) &&
+//@   ensures unknown_buffered [C02,C04]: !known0 ==> !known &&
+//@       rebroadcast == (!buffered0 || leaveMsg.LTime > it0.LTime) &&
 //@       (rebroadcast ==> buffered && it.LTime == leaveMsg.LTime && it.Type == messageLeaveType) &&
-//@       (!rebroadcast ==> buffered && it == old(it))
+//@       (!rebroadcast ==> buffered && it == it0)
 //@   # ---- frame: nobody else is touched; status times only grow
-//@   ensures others_unchanged [C02,C15]: forall(func(k string) bool { o, ok := s.members[k]; oo, ook := old(s.members)[k]
-//@       return k != leaveMsg.Node ==> ok == old(ook) && (ok ==> o == old(oo) && o.Status == old(o.Status) && o.statusLTime == old(o.statusLTime)) })
-//@   ensures ltime_monotone [C02]: forall(func(k string) bool { o, ok := s.members[k]
-//@       return ok && old(s.members[k]) == o ==> o.statusLTime >= old(o.statusLTime) })
+//@   ensures others_unchanged [C02,C15]: othersUntouched(s, leaveMsg.Node)
+//@   ensures ltime_monotone [C02]: ltimeMonotone(s)
 //@   # ---- C15: bookkeeping invariant preserved
 //@   ensures wf_members [C15]: wfMembers(s)
 //@   ensures wf_failed_list [C15]: wfList(s.failedMembers)
@@ -229,31 +250,28 @@ package serf
 //@ end
 
 //@ pure func dropped(s *Serf, t messageType) bool { return s.config.messageDropper(t) }
-//@ pure func memberEventIs(s *Serf, n int, ty EventType, m *memberState) bool {
-//@   e, ok := sentAt(s.config.EventCh, n).(MemberEvent)
-//@   return ok && e.Type == ty && len(e.Members) == 1 && e.Members[0].Name == m.Name && e.Members[0].Status == m.Status
-//@ }
 
 //@ func (s *Serf) handleNodeJoin(n *memberlist.Node)
 //@   requires wf: wfSerf(s) && n != nil
+//@   oldlet m0, known0 := s.members[n.Name]
+//@   oldlet st0 := m0.Status
+//@   oldlet lt0 := m0.statusLTime
+//@   oldlet jt, jok := recentIntent(s.recentIntents, n.Name, messageJoinType)
+//@   oldlet lt, lok := recentIntent(s.recentIntents, n.Name, messageLeaveType)
+//@   oldlet drop := dropped(s, messageJoinType)
+//@   oldlet evN := sentN(s.config.EventCh)
 //@   let m, known := s.members[n.Name]
-//@   let om := old(m)
-//@   let ost := old(m.Status)
-//@   let jt, jok := recentIntent(s.recentIntents, n.Name, messageJoinType)
-//@   let lt, lok := recentIntent(s.recentIntents, n.Name, messageLeaveType)
-//@   let drop := dropped(s, messageJoinType)
-//@   let evN := old(sentN(s.config.EventCh))
-//@   ensures dropped_noop [C02]: drop ==> known == old(known) && m == om && (known ==> m.Status == ost && m.statusLTime == old(m.statusLTime)) &&
+//@   ensures dropped_noop [C02]: drop ==> known == known0 && m == m0 && (known ==> m.Status == st0 && m.statusLTime == lt0) &&
 //@       sentN(s.config.EventCh) == evN
 //@   # a member seen for the first time takes the status/time of the buffered intent (leave wins)
-//@   ensures new_member [C02]: !drop && !old(known) ==> known && m != nil && m.Name == n.Name &&
-//@       m.Status == ite(old(lok), StatusLeaving, StatusAlive) &&
-//@       m.statusLTime == ite(old(lok), old(lt), ite(old(jok), old(jt), 0))
+//@   ensures new_member [C02]: !drop && !known0 ==> known && m != nil && m.Name == n.Name &&
+//@       m.Status == ite(lok, StatusLeaving, StatusAlive) &&
+//@       m.statusLTime == ite(lok, lt, ite(jok, jt, 0))
 //@   # a known member becomes alive again; its status time is untouched
-//@   ensures rejoin [C02,C15]: !drop && old(known) ==> known && m == om && m.Status == StatusAlive && m.statusLTime == old(m.statusLTime)
+//@   ensures rejoin [C02,C15]: !drop && known0 ==> known && m == m0 && m.Status == StatusAlive && m.statusLTime == lt0
 //@   ensures join_event [C16]: !drop && s.config.EventCh != nil ==> sentN(s.config.EventCh) == evN+1 && memberEventIs(s, evN, EventMemberJoin, m)
-//@   ensures others_unchanged [C02,C15]: forall(func(k string) bool { o, ok := s.members[k]; oo, ook := old(s.members)[k]
-//@       return k != n.Name ==> ok == old(ook) && (ok ==> o == old(oo) && o.Status == old(o.Status) && o.statusLTime == old(o.statusLTime)) })
+//@   ensures others_unchanged [C02,C15]: othersUntouched(s, n.Name)
+//@   ensures ltime_monotone [C02]: ltimeMonotone(s)
 //@   ensures wf_members [C15]: wfMembers(s)
 //@   ensures wf_failed_list [C15]: wfList(s.failedMembers)
 //@   ensures wf_failed_a [C15]: listA(s, s.failedMembers, StatusFailed)
@@ -266,20 +284,21 @@ package serf
 
 //@ func (s *Serf) handleNodeLeave(n *memberlist.Node)
 //@   requires wf: wfSerf(s) && n != nil
+//@   oldlet m0, known0 := s.members[n.Name]
+//@   oldlet st0 := m0.Status
+//@   oldlet lt0 := m0.statusLTime
+//@   oldlet evN := sentN(s.config.EventCh)
 //@   let m, known := s.members[n.Name]
-//@   let om := old(m)
-//@   let ost := old(m.Status)
-//@   let evN := old(sentN(s.config.EventCh))
-//@   ensures unknown_ignored [C02]: !old(known) ==> !known && sentN(s.config.EventCh) == evN
+//@   ensures unknown_ignored [C02]: !known0 ==> !known && sentN(s.config.EventCh) == evN
 //@   # memberlist reports the node gone: leaving -> left (graceful), alive -> failed, otherwise nothing
-//@   ensures leaving_to_left [C02,C15]: old(known) && ost == StatusLeaving ==> known && m == om && m.Status == StatusLeft && m.statusLTime == old(m.statusLTime)
-//@   ensures alive_to_failed [C02,C15]: old(known) && ost == StatusAlive ==> known && m == om && m.Status == StatusFailed && m.statusLTime == old(m.statusLTime)
-//@   ensures other_states_kept [C02]: old(known) && ost != StatusLeaving && ost != StatusAlive ==> known && m == om && m.Status == ost &&
-//@       m.statusLTime == old(m.statusLTime) && sentN(s.config.EventCh) == evN
-//@   ensures leave_event [C16]: old(known) && (ost == StatusLeaving || ost == StatusAlive) && s.config.EventCh != nil ==>
-//@       sentN(s.config.EventCh) == evN+1 && memberEventIs(s, evN, ite(ost == StatusLeaving, EventMemberLeave, EventMemberFailed), m)
-//@   ensures others_unchanged [C02,C15]: forall(func(k string) bool { o, ok := s.members[k]; oo, ook := old(s.members)[k]
-//@       return ok == old(ook) && (ok ==> o == old(oo)) && (k != n.Name && ok ==> o.Status == old(o.Status) && o.statusLTime == old(o.statusLTime)) })
+//@   ensures leaving_to_left [C02,C15]: known0 && st0 == StatusLeaving ==> known && m == m0 && m.Status == StatusLeft && m.statusLTime == lt0
+//@   ensures alive_to_failed [C02,C15]: known0 && st0 == StatusAlive ==> known && m == m0 && m.Status == StatusFailed && m.statusLTime == lt0
+//@   ensures other_states_kept [C02]: known0 && st0 != StatusLeaving && st0 != StatusAlive ==> known && m == m0 && m.Status == st0 &&
+//@       m.statusLTime == lt0 && sentN(s.config.EventCh) == evN
+//@   ensures leave_event [C16]: known0 && (st0 == StatusLeaving || st0 == StatusAlive) && s.config.EventCh != nil ==>
+//@       sentN(s.config.EventCh) == evN+1 && memberEventIs(s, evN, ite(st0 == StatusLeaving, EventMemberLeave, EventMemberFailed), m)
+//@   ensures others_unchanged [C02,C15]: othersUntouched(s, n.Name)
+//@   ensures ltime_monotone [C02]: ltimeMonotone(s)
 //@   ensures wf_members [C15]: wfMembers(s)
 //@   ensures wf_failed_list [C15]: wfList(s.failedMembers)
 //@   ensures wf_failed_a [C15]: listA(s, s.failedMembers, StatusFailed)
@@ -292,12 +311,13 @@ package serf
 
 //@ func (s *Serf) handleNodeUpdate(n *memberlist.Node)
 //@   requires wf: wfSerf(s) && n != nil
+//@   oldlet known0 := hasMember(s, n.Name)
+//@   oldlet evN := sentN(s.config.EventCh)
 //@   let m, known := s.members[n.Name]
-//@   let evN := old(sentN(s.config.EventCh))
-//@   ensures unknown_ignored [C02]: !old(known) ==> !known && sentN(s.config.EventCh) == evN
-//@   ensures status_untouched [C02,C15]: forall(func(k string) bool { o, ok := s.members[k]; oo, ook := old(s.members)[k]
-//@       return ok == old(ook) && (ok ==> o == old(oo) && o.Status == old(o.Status) && o.statusLTime == old(o.statusLTime)) })
-//@   ensures update_event [C16]: old(known) && s.config.EventCh != nil ==> sentN(s.config.EventCh) == evN+1 && memberEventIs(s, evN, EventMemberUpdate, m)
+//@   ensures unknown_ignored [C02]: !known0 ==> !known && sentN(s.config.EventCh) == evN
+//@   ensures status_untouched [C02,C15]: othersUntouched(s, "") && (known0 ==> known && m == old(s.members[n.Name]) &&
+//@       m.Status == old(s.members[n.Name].Status) && m.statusLTime == old(s.members[n.Name].statusLTime))
+//@   ensures update_event [C16]: known0 && s.config.EventCh != nil ==> sentN(s.config.EventCh) == evN+1 && memberEventIs(s, evN, EventMemberUpdate, m)
 //@   ensures wf_members [C15]: wfMembers(s)
 //@   ensures wf_failed_list [C15]: wfList(s.failedMembers)
 //@   ensures wf_failed_a [C15]: listA(s, s.failedMembers, StatusFailed)
@@ -306,6 +326,52 @@ package serf
 //@   ensures wf_left_a [C15]: listA(s, s.leftMembers, StatusLeft)
 //@   ensures wf_left_b [C15]: listB(s, s.leftMembers, StatusLeft)
 //@   ensures wf_disjoint [C15]: disjoint(s.failedMembers, s.leftMembers)
+//@ end
+
+// ---------------------------------------------------------------- reaping (C15)
+
+//@ deterministic ReconnectTimeoutOverrider.ReconnectTimeout
+
+// expired: the member has been failed/left for longer than its (possibly overridden) timeout
+//@ pure func expired(s *Serf, m *memberState, now time.Time, timeout time.Duration) bool {
+//@   t := timeout
+//@   if s.config.ReconnectTimeoutOverride != nil { t = s.config.ReconnectTimeoutOverride.ReconnectTimeout(&m.Member, t) }
+//@   return now.Sub(m.leaveTime) > t
+//@ }
+
+//@ func (s *Serf) reap(lst []*memberState, now time.Time, timeout time.Duration) (ret []*memberState)
+//@   requires wf_members: wfMembers(s)
+//@   requires wf_list: wfList(lst)
+//@   requires in_members: forall(func(i int) bool { return 0 <= i && i < len(lst) ==> s.members[lst[i].Name] == lst[i] })
+//@   oldlet evN := sentN(s.config.EventCh)
+//@   ensures in_place [C15]: sameArray(ret, lst) && len(ret) <= len(lst) && elemsUnchangedExcept(lst)
+//@   ensures wf_list [C15]: wfList(ret)
+//@   # exactly the members past their timeout are removed ...
+//@   ensures kept_are_unexpired [C15]: forall(func(j int) bool { r := ret[j]; return 0 <= j && j < len(ret) ==> old(inList(lst, r)) && !expired(s, r, now, timeout) })
+//@   ensures unexpired_are_kept [C15]: forall(func(i int) bool { return 0 <= i && i < len(lst) && !old(expired(s, lst[i], now, timeout)) ==> inList(ret, old(lst[i])) })
+//@   # ... erased from the member map ...
+//@   ensures expired_erased [C15]: forall(func(i int) bool {
+//@       return 0 <= i && i < len(lst) && old(expired(s, lst[i], now, timeout)) ==> !hasMember(s, old(lst[i]).Name) })
+//@   ensures others_kept [C15]: forall(func(k string) bool {
+//@       return (hasMember(s, k) ==> old(hasMember(s, k)) && s.members[k] == old(s.members[k])) &&
+//@         (old(hasMember(s, k)) && !hasMember(s, k) ==> old(inList(lst, s.members[k])) && old(expired(s, s.members[k], now, timeout))) })
+//@   # ... with exactly one reap event each
+//@   ensures one_event_each [C15,C16]: s.config.EventCh != nil ==> sentN(s.config.EventCh) == evN + (len(lst) - len(ret))
+//@   ensures wf_members [C15]: wfMembers(s)
+//@   loop 1 vars cur=old []*memberState, n int, i int
+//@   loop 1 invariant bounds [C15]: 0 <= i && i <= n && n == len(cur) && n <= len(lst) && sameArray(cur, lst)
+//@   loop 1 invariant wf [C15]: wfList(cur) && wfMembers(s)
+//@   loop 1 invariant inmem [C15]: forall(func(j int) bool { return 0 <= j && j < n ==> s.members[cur[j].Name] == cur[j] })
+//@   loop 1 invariant subset [C15]: forall(func(j int) bool { c := cur[j]; return 0 <= j && j < n ==> old(inList(lst, c)) })
+//@   loop 1 invariant scanned [C15]: forall(func(j int) bool { return 0 <= j && j < i ==> !expired(s, cur[j], now, timeout) })
+//@   loop 1 invariant removed [C15]: forall(func(i0 int) bool {
+//@       return 0 <= i0 && i0 < len(lst) && !inList(cur, old(lst[i0])) ==> old(expired(s, lst[i0], now, timeout)) && !hasMember(s, old(lst[i0]).Name) })
+//@   loop 1 invariant members_kept [C15]: forall(func(k string) bool {
+//@       return hasMember(s, k) ==> old(hasMember(s, k)) && s.members[k] == old(s.members[k]) })
+//@   loop 1 invariant members_gone [C15]: forall(func(k string) bool {
+//@       return old(hasMember(s, k)) && !hasMember(s, k) ==> old(inList(lst, s.members[k])) && old(expired(s, s.members[k], now, timeout)) })
+//@   loop 1 invariant events [C15,C16]: s.config.EventCh != nil ==> sentN(s.config.EventCh) == evN + (len(lst) - n)
+//@   loop 1 invariant frame [C15]: elemsUnchangedExcept(lst)
 //@ end
 
 // END-OF-CONTRACTS
